@@ -696,6 +696,11 @@ pub(crate) fn run(
                         // Referenced group hasn't matched, so the backref doesn't match either
                         break 'fail;
                     }
+                    if lo > hi {
+                        // The group has been re-entered but not closed again yet (its start is
+                        // newer than its end), so it has no valid match to refer to
+                        break 'fail;
+                    }
                     let ref_text = &s[lo..hi];
                     let ix_end = ix + ref_text.len();
                     if !matches_literal(s, ix, ix_end, ref_text) {
